@@ -318,11 +318,13 @@ def check_sync(ctx, case, real, model):
     for k, st in enumerate(real):
         sub = dict(case, evs=case["evs"][:k])
         m = model[k] if model is not None and k < len(model) else None
-        if m is not None and common.jdump(m) != common.jdump(st):
+        differs = m is not None and common.jdump(m) != common.jdump(st)
+        if differs:
             ctx.disagree("sync_state", sub, st, m, note="after %s" % (case["evs"][k - 1] if k else "the constructors",))
-            break
         if any(st[i]["mod"] == "older" for i in ("i0", "i1")):
             stale = True
+        if differs and not (st["fresh"] and st["file"] != st["db"]):
+            break
         if st["fresh"] and st["file"] != st["db"]:
             deleted = any(e[0] == "delete" for e in case["evs"][:k])
             cls = "D61" if deleted else ("D62" if case.get("gate") == "rebuild0" else None)   # D62 is fixed: naming it marks a regression
@@ -347,7 +349,7 @@ def sync_protocol(ctx, corpus=()):
         cases.append({"n": ctx.rng.choice([1, 2, 3]), "fileKind": ctx.rng.randrange(3), "sysOk": ctx.rng.random() < 0.5,
                       "evs": [list(ctx.rng.choice(lib_cachesync.ALPHABET)) for _ in range(k)]})
     ctx.hist("sync scenarios", len(cases))
-    stop = ctx.t0 + (600 if thorough else 25)      # the histories below need the rest of the budget
+    stop = ctx.t0 + (600 if thorough else 20)      # the histories below need the rest of the budget
     for i in range(0, len(cases), 128):
         if ctx.out_of_time() or (i and time.time() > stop):
             break
@@ -373,9 +375,9 @@ def run(ctx):
     evaluate(ctx, cases)
     n = ctx.n(1500, 12000)
     done = 0
-    soft = ctx.t0 + (70 if ctx.tier == "quick" and not ctx.escalated else 1e9)
+    soft = ctx.t0 + (88 if ctx.tier == "quick" and not ctx.escalated else 1e9)
     while done < n and not ctx.out_of_time() and time.time() < soft:
-        k = min(96, n - done)
+        k = min(48, n - done)          # small batches: the last one overruns the soft limit by its own length
         evaluate(ctx, [gen_case(ctx.rng) for _ in range(k)])
         done += k
     _shrinker()[2](ctx)
